@@ -47,6 +47,8 @@ def code_plan_from_summary(text):
             items = []
             for it in [x.strip() for x in body.split(", ") if x.strip()]:
                 m = re.match(r"^(.*)_indices_(.*)_(total\+delta|total|delta)$", it)
+                def cols(txt):
+                    return [] if txt in ("none", "") else [int(c) + 1 for c in txt.split("_")]
                 if it.startswith("for_"):
                     items.append({"k": "for", "rel": "-", "ver": "-"})
                 elif it.startswith("if let"):
@@ -56,11 +58,13 @@ def code_plan_from_summary(text):
                 elif it.startswith("let "):
                     items.append({"k": "let", "rel": "-", "ver": "-"})
                 elif it.startswith("agg "):
-                    items.append({"k": "agg", "rel": it[4:].split("_indices_")[0], "ver": "-"})
+                    items.append({"k": "agg", "rel": it[4:].split("_indices_")[0], "ver": "-", "idx": cols(it[4:].split("_indices_")[1])})
                 elif m:
-                    items.append({"k": "cl", "rel": m.group(1), "ver": m.group(3)})
+                    items.append({"k": "cl", "rel": m.group(1), "ver": m.group(3), "idx": cols(m.group(2))})
                 else:
                     items.append({"k": "unknown:" + it, "rel": "-", "ver": "-"})
+            for it in items:
+                it.setdefault("idx", [])
             lines.append({"heads": [h.strip() for h in heads.split(",") if h.strip()], "items": items, "sj": sj, "nr": nr})
         sccs.append({"looping": s["looping"], "dynamic": s["dynamic"], "lines": lines})
     return sccs
